@@ -351,6 +351,7 @@ func cmdCheck(args []string) int {
 	discharged := 0
 	byBackend := map[string]int{}
 	solverS := 0.0
+	secondAgreed := 0
 	var knownLines []string
 	findingSeen := map[string]bool{}
 	var samples []map[string]interface{}
@@ -361,6 +362,9 @@ func cmdCheck(args []string) int {
 		if r.Status == "unsat" {
 			discharged++
 			byBackend[r.Solver]++
+			if len(r.Agree) > 0 {
+				secondAgreed++
+			}
 			if len(samples) < 12 && !o.Trivial && (len(samples) < 4 || o.Kind != "safety") {
 				samples = append(samples, map[string]interface{}{"obligation": o.Name, "kind": o.Kind, "solver": r.Solver, "s": round2(r.Seconds), "smt_bytes": len(r.Script)})
 			}
@@ -520,7 +524,7 @@ func cmdCheck(args []string) int {
 			"obligations": len(all), "discharged": discharged,
 			"checker_cmd":              fmt.Sprintf("./check %s --tier %s", prop, *tier),
 			"trusted_base":             []string{"x/tools go/ssa v0.29.0", "govc symbolic executor and SMT encoding (/verif/govc)", "z3 5.1.0 (z3-new)", "cvc5 1.0.3", "z3 4.8.12", "/verif/spec/*.spec (transcribed from MODBUS Application Protocol V1.1b3 and MODBUS over Serial Line V1.02)"},
-			"functions_under_contract": fuc, "by_backend": byBackend, "solver_s": round2(solverS), "slowest": slowest(all, 8), "solver_timeout_s": timeout,
+			"functions_under_contract": fuc, "by_backend": byBackend, "solver_s": round2(solverS), "slowest": slowest(all, 8), "solver_timeout_s": timeout, "second_opinion_agreed": secondAgreed,
 			"return_sites_explored": paths, "covers_checked": coverChecked + anteChecked, "vacuity_failures": coverFail + vacuousClauses,
 			"known_findings": knownLines, "samples": samples,
 			"inlined_without_contract": sortedKeys(inlined), "contracts_used_at_call_sites": sortedKeys(used),
